@@ -11,9 +11,10 @@ import (
 // generators: every random choice comes from g.r
 
 type gen struct {
-	r *hlib.Rand
-	f facts
-	p *pool
+	r    *hlib.Rand
+	f    facts
+	p    *pool
+	real *realTree // non-nil: file names of the real tree (real.go)
 }
 
 func (g *gen) pick(ss []string) string { return ss[g.r.Intn(len(ss))] }
@@ -237,6 +238,9 @@ func (g *gen) weighted(ws []int) int {
 var outputFlagNames = []string{"compact", "raw_string", "join_output", "null_output", "color_output", "monochrome_output", "unicode_output", "value_output"}
 
 func (g *gen) pickFile() string {
+	if g.real != nil {
+		return g.pickRealFile()
+	}
 	if g.chance(15) {
 		return g.pick([]string{"fifo_a.json", "fifo_n.json", "fifo.png", "fifo_u.bin", "cdev_a.json"})
 	}
@@ -264,12 +268,13 @@ func (g *gen) pickProg() string {
 		}
 		return g.pick([]string{".", ".", ".a?", ".,.", "empty", "-1", "type", "[.]"})
 	case 1:
-		if g.chance(50) {
+		// (real file system: only failures that carry the marker text — there the classifier has no marker for io errors)
+		if g.real == nil && g.chance(50) {
 			return failOnNumber(g.pick(errValues))
 		}
 		return g.pick([]string{progFnum, progFnum2})
 	case 2:
-		if g.chance(50) {
+		if g.real == nil && g.chance(50) {
 			return g.pick([]string{"error(" + g.pick(errValues) + ")", "null|error", "(.missing? // null)|error", "., (false|error)"})
 		}
 		return g.pick([]string{progFall, progFall2})
